@@ -125,7 +125,6 @@ type instID struct {
 // It is guaranteed by the caller that this happens only once.
 func (m *meter) setDelegate(provider metric.MeterProvider) {
 	m.mtx.Lock()
-	defer m.mtx.Unlock()
 
 	meter := provider.Meter(m.name, m.opts...)
 	m.delegate = meter
@@ -134,16 +133,24 @@ func (m *meter) setDelegate(provider metric.MeterProvider) {
 		inst.setDelegate(meter)
 	}
 
+	regs := make([]*registration, 0, m.registry.Len())
 	var n *list.Element
 	for e := m.registry.Front(); e != nil; e = n {
-		r := e.Value.(*registration)
-		r.setDelegate(meter)
+		regs = append(regs, e.Value.(*registration))
 		n = e.Next()
 		m.registry.Remove(e)
 	}
 
 	m.instruments = nil
 	m.registry.Init()
+	m.mtx.Unlock()
+
+	// Hand the registrations over only after m.mtx is released:
+	// registration.Unregister takes its own lock before m.mtx, so doing this
+	// while holding m.mtx inverts that order and can deadlock.
+	for _, r := range regs {
+		r.setDelegate(meter)
+	}
 }
 
 func (m *meter) Int64Counter(name string, options ...metric.Int64CounterOption) (metric.Int64Counter, error) {
